@@ -32,8 +32,10 @@ class Shadow:
         # targeted scenarios (act_special): probability per act() step and relative weights; a property check raises what it is about
         self.special = 0.08
         self.weights = {'late-unschedule': 1.0, 'orphan': 1.0, 'unschedule-orphan': 2.0, 'late-resources': 1.5, 'jp-cancel-path': 1.0,
-                        'late-schedule': 1.0, 'dead-instance-attempt': 1.0, 'compact-cycle': 1.0}
+                        'late-schedule': 1.0, 'dead-instance-attempt': 1.0, 'compact-cycle': 1.0, 'cancel-cleanup-cancel': 1.0}
         self.abs_in_update = 0.2       # share of in-update parents a bunch names by ABSOLUTE id (the legacy `parent_ids` form)
+        self.legacy_spelling = 0.3     # share of specs with absolute parents that send them under the deprecated key `parent_ids` (L prefix)
+        self.group_bunches = 0.3       # probability that the job groups of an update are sent in several bunches
         self.ops: List[str] = []
         self.tags: List[str] = []
         self.date = 0
@@ -102,9 +104,12 @@ class Shadow:
             B['groups'][gid] = {'parent': parent, 'depth': B['groups'][parent]['depth'] + 1, 'update': u['id']}
         if not specs:
             return
-        if len(specs) > 1 and rng.random() < 0.3:
+        if len(specs) > 1 and rng.random() < self.group_bunches:
             cut = rng.randint(1, len(specs) - 1)
             parts = [specs[:cut], specs[cut:]]
+            if len(parts[1]) > 1 and rng.random() < 0.4:
+                c2 = rng.randint(1, len(parts[1]) - 1)
+                parts = [parts[0], parts[1][:c2], parts[1][c2:]]
         else:
             parts = [specs]
         for p in parts:
@@ -128,6 +133,8 @@ class Shadow:
             jid = u['start_job'] + k - 1
             relp = sorted({p for p in range(1, k) if rng.random() < 0.3})
             absp = sorted({p for p in range(1, u['start_job']) if rng.random() < (0.25 if u['id'] > 1 else 0)})
+            if k == 1 and rng.random() < 0.5:
+                absp = []                    # the first job of an update is often a root of the update's graph
             groups = list(B['groups'])
             g = rng.choice(groups) if rng.random() < 0.7 else 0
             if g >= u['start_group'] and rng.random() < 0.6:
@@ -142,7 +149,8 @@ class Shadow:
             moved = [p for p in relp if rng.random() < self.abs_in_update]
             relp = [p for p in relp if p not in moved]
             absp = sorted(absp + [u['start_job'] + p - 1 for p in moved])
-            specs.append(f'{k};{",".join(map(str, absp))};{",".join(map(str, relp))};{gs};{ar};{cores};{ic}')
+            spell = 'L' if absp and rng.random() < self.legacy_spelling else ''
+            specs.append(f'{k};{spell}{",".join(map(str, absp))};{",".join(map(str, relp))};{gs};{ar};{cores};{ic}')
             self.jobs[(b, jid)] = {'update': u['id'], 'group': g, 'parents': parents, 'ar': ar, 'cores': cores, 'ic': ic,
                                    'state': 'Ready' if (u['id'] == 1 and not parents) else 'Pending', 'attempt': None, 'inst': None,
                                    'inserted': False, 'done_parents': 0}
@@ -278,6 +286,10 @@ class Shadow:
         billable = [(k, J) for k, J in running if J.get('res') == J['attempt']]
         if billable:
             cands['compact-cycle'] = billable
+        live_batches = [b for b, B in self.batches.items() if not B['deleted'] and 0 not in B['cancelled'] and
+                        any(k[0] == b and J['state'] in ('Ready', 'Running', 'Creating') and self.visible(b, J) for k, J in jobs)]
+        if len(live_batches) >= 2:
+            cands['cancel-cleanup-cancel'] = [((b, 0), None) for b in live_batches]
         names = [n for n in cands if self.weights.get(n, 0) > 0]
         if not names:
             return False
@@ -285,6 +297,21 @@ class Shadow:
         (b, j), J = rng.choice(cands[name])
         ts = self.tick()
         d = self.date
+        if name == 'cancel-cleanup-cancel':
+            # one batch is cancelled, the driver's periodic cleanup of cancellable-resources rows runs, then ANOTHER batch (still holding
+            # ready / running cancellable jobs) is cancelled
+            others = [x for x in live_batches if x != b]
+            for bb in (b, rng.choice(others)):
+                B = self.batches[bb]
+                g = 0 if rng.random() < 0.6 else rng.choice(list(B['groups']))
+                self.emit(f'cancel {bb} {g}', 'cancel:two-batches')
+                if B['groups'][g]['update'] is None or B['updates'][B['groups'][g]['update'] - 1]['committed']:
+                    B['cancelled'].add(g)
+                if bb == b:
+                    self.emit('cleanupCancellable', 'background')
+                    if rng.random() < 0.3:
+                        self.emit('cleanupStaging', 'background')
+            return True
         if name == 'late-unschedule':
             a, inst = J['last']
             self.emit(f'unschedule {b} {j} {a} {inst} {ts} cancelled {d}', 'unschedule:after-complete')
@@ -506,19 +533,33 @@ class Shadow:
 
 
 def history(rng: random.Random, max_updates: int = 3, cancel_bias: float = 0.0, special: Optional[float] = None,
-            weights: Optional[Dict[str, float]] = None) -> Dict[str, Any]:
+            weights: Optional[Dict[str, float]] = None, two_batches: float = 0.25, commit_modes=(0.6, 0.85), min_updates: int = 1,
+            knobs: Optional[Dict[str, float]] = None) -> Dict[str, Any]:
+    """commit_modes = (p_immediate, p_immediate + p_late): how an update that was sent completely is committed (rest: never);
+    two_batches: probability of a second live batch (same or another user) next to the main one; knobs: Shadow attributes"""
     s = Shadow(rng)
     s.cancel_bias = cancel_bias
     if special is not None:
         s.special = special
     if weights:
         s.weights.update(weights)
+    for k, v in (knobs or {}).items():
+        setattr(s, k, v)
+    if rng.random() < two_batches:
+        # another batch lives next to the main one: committed, with ready jobs (its ids are independent of the main batch's)
+        b0 = s.create_batch()
+        u0 = s.open_update(b0, rng.randint(1, 3), rng.choice([0, 1, 2]))
+        s.insert_groups(b0, u0)
+        s.insert_jobs(b0, u0)
+        while u0['bunches']:
+            s.send_bunch(b0, u0)
+        s.commit(b0, u0)
     b = s.create_batch()
     for _ in range(rng.choice([1, 1, 2])):
         s.new_instance(True)
     if rng.random() < 0.5:
         s.new_instance(False, activate=rng.random() < 0.5)
-    n_updates = rng.randint(1, max_updates)
+    n_updates = rng.randint(min(min_updates, max_updates), max_updates)
     pending_commits = []
     held = []                 # updates whose bunches are sent late (after a later update was committed)
     for k in range(n_updates):
@@ -537,11 +578,11 @@ def history(rng: random.Random, max_updates: int = 3, cancel_bias: float = 0.0, 
             for _ in range(rng.choice([0, 0, 1, 2])):
                 s.act()
         mode = rng.random()
-        if mode < 0.6:
+        if mode < commit_modes[0]:
             s.commit(b, u)
             if rng.random() < 0.1:
                 s.emit(s.ops[-1], 'dup:commit')
-        elif mode < 0.85:
+        elif mode < commit_modes[1]:
             pending_commits.append(u)          # committed late, after other activity
         # else: never committed
         for _ in range(rng.randint(2, 8)):
@@ -591,7 +632,7 @@ def adversarial(rng: random.Random) -> Dict[str, Any]:
     B = s.batches[b]
     n = rng.randint(1, 3)
     kind = rng.choice(['missing-parent', 'later-parent', 'self-parent', 'id-out-of-range', 'dup-parents', 'empty-update', 'unknown-group',
-                       'later-group', 'wrong-user', 'groups-out-of-order', 'dup-job-id', 'abs-parent-in-future-update', 'zero-id',
+                       'later-group', 'wrong-user', 'groups-out-of-order', 'abs-parent-in-future-update', 'zero-id',
                        # boundaries of the id checks of _create_jobs, and what they cannot see
                        'rel-parent-zero', 'abs-parent-zero', 'abs-parent-own-id', 'abs-parent-previous-id', 'id-just-above-range',
                        'parent-in-uninserted-earlier-update', 'parent-in-uninserted-earlier-update'])
@@ -614,15 +655,18 @@ def adversarial(rng: random.Random) -> Dict[str, Any]:
     sj = u['start_job']
     usr = 2 if kind == 'wrong-user' else 1
 
+    legacy = rng.random() < 0.4         # the hostile absolute ids are sent under the deprecated key `parent_ids`
+
     def spec(k, absp=(), relp=(), g='0;0', ar=0):
-        return f'{k};{",".join(map(str, absp))};{",".join(map(str, relp))};{g};{ar};1000;0'
+        return f'{k};{"L" if legacy and absp else ""}{",".join(map(str, absp))};{",".join(map(str, relp))};{g};{ar};1000;0'
     specs = [spec(k) for k in range(1, n + 1)]
+    absolute = rng.random() < 0.5       # later / self parents named by absolute id instead of in-update id
     if kind == 'missing-parent':
         specs[0] = spec(1, absp=[sj + 40])
     elif kind == 'later-parent':
-        specs[0] = spec(1, relp=[n + 1 if n == 1 else 2])
+        specs[0] = spec(1, absp=[sj + (n if n == 1 else 1)]) if absolute else spec(1, relp=[n + 1 if n == 1 else 2])
     elif kind == 'self-parent':
-        specs[-1] = spec(n, relp=[n])
+        specs[-1] = spec(n, absp=[sj + n - 1]) if absolute else spec(n, relp=[n])
     elif kind == 'id-out-of-range':
         specs[-1] = spec(n + rng.randint(1, 5))
     elif kind == 'zero-id':
@@ -638,8 +682,6 @@ def adversarial(rng: random.Random) -> Dict[str, Any]:
         specs[0] = spec(1, g=f'{B["n_groups"] + 7};0')
     elif kind == 'later-group':
         specs[0] = spec(1, g='N;3')
-    elif kind == 'dup-job-id' and n > 1:
-        specs[1] = spec(1)
     elif kind == 'abs-parent-in-future-update':
         specs[0] = spec(1, absp=[sj + n])
     elif kind == 'rel-parent-zero':
@@ -709,8 +751,10 @@ def submission(rng: random.Random) -> Dict[str, Any]:
     script: List[str] = []
     for _ in range(rng.randint(4, 16)):
         r = rng.random()
-        if r < 0.35:
+        if r < 0.30:
             script.append('S')
+        elif r < 0.36:
+            script.append('P')
         elif r < 0.6:
             script.append('W' + rng.choice(['Success', 'Success', 'Failed', 'Error']))
         elif r < 0.68:
